@@ -302,8 +302,30 @@ pub struct BatchResult {
     pub wall_s: f64,
 }
 
+/// Remove scratch directories left behind by processes that no longer exist.
+fn sweep_stale_scratch() {
+    let base = scratch_base();
+    let parent = match base.parent() {
+        Some(p) => p.to_path_buf(),
+        None => return,
+    };
+    if let Ok(rd) = std::fs::read_dir(&parent) {
+        for e in rd.flatten() {
+            let name = e.file_name().to_string_lossy().to_string();
+            if let Some(pid) = name.strip_prefix("txtpp-verif.") {
+                if let Ok(pid) = pid.parse::<u32>() {
+                    if !Path::new(&format!("/proc/{pid}")).exists() {
+                        let _ = std::fs::remove_dir_all(e.path());
+                    }
+                }
+            }
+        }
+    }
+}
+
 pub fn run_batch(prop: &str, tier: Tier, seed: u64, n: u64, w: usize, deadline_s: u64) -> BatchResult {
     let t0 = Instant::now();
+    sweep_stale_scratch();
     let base = scratch_base();
     let stop = Arc::new(AtomicBool::new(false));
     let nviol = Arc::new(AtomicUsize::new(0));
